@@ -37,6 +37,24 @@ CHECKS = {
     "C13": ("exploration", "5.C13", "lock-step counter model + twin-peer comparison on the real PacketSequencer",
             "All histories over {next, set(a), set(b)} up to the depth bound after several wrap-around prefixes (DFS with copies), random histories up to 300 ops with every SequenceStart kind; each returned value compared with start+n mod 10 and a lazily driven twin.",
             "copy.copy of a sequencer is independent (DFS only)."),
+    "C01": ("exploration", "5.C01", "round-trip through the real generated code behind lock-step writer/reader proxies; AST-driven deep equality; reference round-trip domain filter",
+            "Corpus + SpecGen trees; every wire-unambiguous class x in-domain values: real serialize (fresh real writer) then real deserialize (fresh real reader) must return a field-by-field equal object, consume exactly the bytes written and report byte_size = that count, at every nesting level.",
+            "Domain = C01's quantifier as implemented in vf/gen/wu.py plus the reference round-trip filter; the reference interpreter is trusted as the semantics."),
+    "C02": ("exploration", "5.C02", "byte-for-byte differential serialization against an independent reference interpreter of the XML + metamorphic explicit-defaults twin",
+            "Corpus + SpecGen trees (certified by an independent grammar model) x ValueGen objects incl. unencodable/0xFF characters, unrecognised ordinals, optional holes, both entry modes: real bytes == reference bytes, exceptions only where the reference predicts invalidity, family()/action(), Packet.write, and the twin spec with every boolean default spelled out gives identical bytes.",
+            "Reference interpreter (vf/ref/interp.py) written from the format rules, sharing no code with the generator; non-degenerate specs as defined in DESIGN 4.4."),
+    "C03": ("exploration", "5.C03", "differential deserialization of hostile bytes through a lock-step reader proxy (real EoReader + model, guarded buffer, logical fuel)",
+            "Every prefix / 00-FE-FF-biased substitution / insertion / junk suffix / random string derived from valid serializations of every class, both entry modes: result object, byte_size, final position and exception class compared with the reference; fuel exhaustion = non-termination.",
+            "Reference interpreter + reference reader are the reading rules; hostile lengths beyond the oracle budget are skipped and counted."),
+    "C15": ("fault_enumeration", "5.C15", "frame monitor on every generated serialize/deserialize call + enumerated fault points (failing reader/writer proxies, sys.monitoring LINE failpoints, invalid objects)",
+            "For each clean run every reader/writer operation index and every line event inside generated methods is used as a fault point (sampled above a cap); entry mode == exit mode is checked on every frame at every nesting level, returning or raising, for both entry modes.",
+            "Faults are exceptions from reader/writer operations, validation or statement boundaries of generated methods; exceptions thrown into a finally clause's restoring statement are out of scope."),
+    "C16": ("exploration", "5.C16", "one-violation object mutants checked by the reference validity rules; monitor on the exception class of real serialize",
+            "Every catalogued violation (None for required, wrong fixed/padded/length-bounded sizes, integers / ordinals / elements at or above the limit, wrong-kind case data) applied at eligible fields at every nesting depth of generated values; real serialize must raise SerializationError or ValueError.",
+            "Invalidity is judged by the reference interpreter from the declaration."),
+    "C19": ("exploration", "5.C19", "setattr/delattr, aliasing and double-serialization monitors on real generated instances (constructed and deserialized)",
+            "Every public field and byte_size of every instance reached (nested structs and case data included) is assigned and deleted (must raise AttributeError); arrays must be tuples; caller-side mutation of constructor lists must not show; serialization is repeatable.",
+            "Type-conforming constructor arguments."),
 }
 PENDING = ["C01", "C02", "C03", "C14", "C15", "C16", "C17", "C18", "C19", "C20"]
 
